@@ -178,7 +178,7 @@ def serialize(disc: Disc, rng, shapes=("contiguous", "reversed", "random", "sort
         part = bytearray(p.sectors * SECTOR)
         alloc = Allocator(rng, p.sectors)
         ventry_list = []
-        for v in p.volumes:
+        for vi, v in enumerate(p.volumes):
             # files first (their start sectors go into the directory) unless the volume asks otherwise
             entries = bytearray()
             pre_dsecs = None
@@ -202,7 +202,7 @@ def serialize(disc: Disc, rng, shapes=("contiguous", "reversed", "random", "sort
                 secs = alloc.take(n, shape)
                 alloc.chain(secs)
                 info["chains"].append(secs)
-                vol_files.append({"part": pi, "pstart": pstart, "vol": v.name, "name": f.name, "kind": f.kind, "secs": list(secs), "nbytes": len(data)})
+                vol_files.append({"part": pi, "pstart": pstart, "vol": v.name, "vi": vi, "entry": len(vol_files), "name": f.name, "kind": f.kind, "secs": list(secs), "nbytes": len(data)})
                 if len(secs) > 1 and secs[0] != min(secs):
                     info["head_not_lowest"] += 1
                 if len(data) % SECTOR == 0:
